@@ -167,6 +167,9 @@ func (x *Ctx) Describe(f func() string) {
 	}
 }
 
+// Thorough reports whether the thorough tier is running.
+func (x *Ctx) Thorough() bool { return x.w.tier == "thorough" }
+
 // Replaying is true when a single recorded case is being replayed.
 func (x *Ctx) Replaying() bool { return x.w.replay }
 
